@@ -66,6 +66,8 @@ func runC02(x *Ctx) {
 		return
 	}
 	cmdOf := "call[" + dlgTok + "Command](" + elem + ")"
+	setCarriedScope(x, vp, l)
+	defer setCarriedScope(nil, nil, nil)
 	running := loopCarried(is("recv.command"), is(cmdOf))
 	A := func(t *paths.Term) (bool, bool) {
 		if t.Op == "call" && t.Name == "(pkg/command.Command).Covers" && len(t.Args) == 2 &&
@@ -699,10 +701,12 @@ func runC05(x *Ctx) {
 			for _, l := range fullRangeLoops(f, "len(recv.proof)", "len("+fd.delegs+")") {
 				iv = ivName(l)
 				elem = fd.delegs + "[" + iv + "]"
+				setCarriedScope(x, f, l)
 			}
 		}
 		allowed := allowedDenial(fd.delegs, elem, iv, stage)
 		classifyDenials(x, fd.name, f, nil, allowed, stage, 2)
+		setCarriedScope(nil, nil, nil)
 	}
 	irrelevantFieldsRule(x, "C05.R2", irrelevantFields)
 }
@@ -838,7 +842,7 @@ func allowedDenial(delegs, elem, iv string, stage map[string]bool) func(paths.Fa
 			iss := "call[" + dlgTok + "Issuer](" + elem + ")"
 			cmdOf := "call[" + dlgTok + "Command](" + elem + ")"
 			if a, b, ok := eqOperands(t); ok && !f.Pol {
-				if (a.String() == subj && b.String() == "recv.subject") || (b.String() == subj && a.String() == "recv.subject") {
+				if (a.String() == subj && loopInvariant("recv.subject")(b)) || (b.String() == subj && loopInvariant("recv.subject")(a)) {
 					return "wrong-subject", true
 				}
 				lc := loopCarried(is("recv.issuer"), is(iss))
